@@ -279,7 +279,30 @@ func RunWorker(e Engine) int {
 		return 0
 	}
 	hasher, _ := e.(CaseHasher)
+	// The order in which this worker visits its cases is part of the process
+	// history; cross-process comparisons vary it (VERIF_ORDER) so that a
+	// dependence on what ran earlier in the process shows up as a difference.
+	var order []int
 	for idx := worker; idx < n; idx += workers {
+		order = append(order, idx)
+	}
+	switch os.Getenv("VERIF_ORDER") {
+	case "reverse":
+		for i, j := 0, len(order)-1; i < j; i, j = i+1, j-1 {
+			order[i], order[j] = order[j], order[i]
+		}
+	case "interleave":
+		var a, b []int
+		for i, v := range order {
+			if i%2 == 1 {
+				a = append(a, v)
+			} else {
+				b = append(b, v)
+			}
+		}
+		order = append(a, b...)
+	}
+	for _, idx := range order {
 		r := NewRand(seed, e.Name(), uint64(idx))
 		c := e.Gen(r, tier)
 		env := &Envelope{Property: e.Property(), Engine: e.Name(), Seed: seed, Case: idx, Body: marshalBody(c)}
